@@ -11,7 +11,7 @@ import WebPkg.Driver.OpsDirWalk
 import WebPkg.Driver.OpsHar
 open WebPkg.Driver
 
-def handlers : List (String → List String → Option String) := [handleCbor, handleMice, handleSH, handleSxg, handleBundle, handleIB, handleBSig, handleFault, handleRes, handleDirWalk, handleHar]
+def handlers : List (String → List String → Option String) := [handleCbor, handleMice, handleSH, handleSxg, handleBundle, handleIB, handleBSig, handleFault, handleRes, handleDirWalk, handleHar, handleCborGrow]
 
 /-- ops that differ from a plain op only in HOW the real code is driven (reader / writer kind, object reuse, a preceding
     call in the same process): the model is a pure function of the data, so they are the plain op on the relevant arguments -/
@@ -22,6 +22,8 @@ def alias (op : String) (args : List String) : String × List String :=
   | "cert.write.new", _ => ("cert.write", args)
   | "cert.write.inplace", [_, b] => ("cert.write", [b])      -- the objects' earlier contents (already written once) leave no trace
   | "bundle.read.buffer", _ => ("bundle.read", args)
+  | "bundle.read.at", _ :: _ :: rest => ("bundle.read", rest)   -- what the caller's source held BEFORE the position it is handed over at is not input
+  | "fault.destio", _ :: rest => ("fault", rest)    -- which optional interfaces the failing destination offers does not matter
   | "sxg.read.buffer", _ => ("sxg.read", args)
   | "mice.dec.copy", _ => ("mice.dec", args)
   | "cbor.det.cap", _ => ("cbor.det", args)      -- what lies behind the slice's length (spare capacity) is not input
@@ -32,6 +34,7 @@ def alias (op : String) (args : List String) : String × List String :=
   | "fault.dest", _ :: rest => ("fault", rest)      -- which optional methods (Flush, Sync, Close, WriteString, ReadFrom) the destination has besides Write is not input
   | "cw.seq", [k, room, seq] => ("cw.seq", [k, room, seq.replace "R" "r"])   -- R: the source reports io.EOF together with its last bytes
   | "mice.twice", [d, mx, dg, _, b] => ("mice.all", [d, mx, dg, b])
+  | "mice.dec.src", _ :: rest => ("mice.dec", rest)      -- kind of the source reader and what was consumed from it before: only the unread bytes are input
   | "sxg.reread", what :: _ :: rest => ("sxg." ++ what, rest)
   | "sxg.verify.reread", _ :: rest => ("sxg.verify", rest)
   | "sxg.verify.tz", _ :: rest => ("sxg.verify", rest)      -- the verdict does not depend on the process's local time zone
